@@ -280,7 +280,7 @@ class C12(Spec):
         return []
 
     def gen(self, tier, rng):
-        nd, nm, nj = (700, 60, 260) if tier == 'quick' else (20000, 1000, 6000)
+        nd, nm, nj = (500, 50, 220) if tier == 'quick' else (20000, 1000, 6000)
         cases = []
         # every (form, step_calc) on a fixed grid first
         for form in FORMS:
